@@ -510,7 +510,7 @@ let mate_in_one_moves (p : position) : move list =
   List.filter (fun m -> api_spec_classify (api_spec_make p m) = CheckMate) (api_spec_legal_moves p)
 let check_search line f =
   match f with
-  | ["SR"; xf; k; mv; sc; depth; polls] ->
+  | ["SR"; xf; k; mv; sc; depth; polls; api_mv; api_sc] ->
     (match parse_model xf with
      | None -> cmp_line "SR" line [("model:position-rejected-by-model-parser", "accepted", "rejected")]
      | Some b ->
@@ -545,8 +545,10 @@ let check_search line f =
          end
        end;
        ignore polls;
+       add "spec:move seen through the stable ABI (EvaluatedMove) = move returned" mv api_mv;
+       add "spec:score seen through the stable ABI = score returned" sc api_sc;
        cmp_line "SR" line (List.rev !checks) end)
-  | ["MR"; xf; mf; a; m] ->
+  | ["MR"; xf; mf; a; m; kmax; fa; fm] ->
     if a = "TRAP" then cmp_line "MR" line [("spec:search never panics", "no-TRAP", "TRAP")] else
     (match parse_model xf, parse_model mf with
      | Some b, Some mb ->
@@ -556,8 +558,17 @@ let check_search line f =
        let common = List.filter (fun (d, _) -> List.mem_assoc d lm) la in
        let exp = String.concat "," (List.map (fun (d, v) -> d ^ ":" ^ string_of_score (api_score_neg (score_of_string v))) common) in
        let got = String.concat "," (List.map (fun (d, _) -> d ^ ":" ^ List.assoc d lm) common) in
-       cmp_line "MR" line [("model:harness mirror = spec mirror", "1", b01 is_mirror);
-                           ("spec:mirrored position has the negated score at every depth both searches completed", exp, got)]
+       (* a colour that gets no move at the largest budget although legal moves exist and the first pass fits the budget *)
+       let none_check side fin (bb : board) =
+         (match String.split_on_char '|' fin with
+          | "-" :: _ when api_spec_legal_moves (api_abs bb) <> [] ->
+            let kk = int_of_string kmax in
+            let (((mmv, _), _), mfuel) = api_search (n_of_int kk) (api_nat_of_N (n_of_int (min (kk + 2) 70001))) (api_nat_of_N (n_of_int 48)) bb in
+            if (not mfuel) && mmv <> None then [("spec:colour symmetry: " ^ side ^ " gets a move at this budget (its first pass completes)", "some", "-")] else []
+          | _ -> []) in
+       cmp_line "MR" line ([("model:harness mirror = spec mirror", "1", b01 is_mirror);
+                            ("spec:mirrored position has the negated score at every depth both searches completed", exp, got)]
+                           @ none_check "the position" fa b @ none_check "the mirrored position" fm mb)
      | _ -> cmp_line "MR" line [("model:mirror position accepted", "accepted", if a = "MIRROR-REJECTED" then "impl-rejected" else "model-rejected")])
   | _ -> failwith "search fields"
 
@@ -651,6 +662,7 @@ let dispatch line =
   | "TR" :: _ -> check_tr line f
   | ("PO" | "MV" | "CK" | "LG" | "FP" | "BL") :: _ -> check_chess line f
   | ("BK" | "BKS") :: _ -> check_book line f
+  | "WK" :: _ -> bump "WK" 0
   | "GI" :: _ -> check_gi line f
   | ("SR" | "MR") :: _ -> check_search line f
   | "BT" :: _ -> check_bot line f
